@@ -5,6 +5,8 @@ mod c09;
 mod c11;
 mod c14;
 mod c15;
+mod c16;
+mod dftzoo;
 mod c20;
 mod c14seg;
 mod equil;
@@ -25,6 +27,7 @@ fn main() {
         "c11" => c11::run(&args),
         "c14" => c14::run(&args),
         "c15" => c15::run(&args),
+        "c16" => c16::run(&args),
         "c20" => c20::run(&args),
         "thermo" => thermo::run(&args),
         "igcp" => igcp::run(&args),
